@@ -1,5 +1,6 @@
 #!/bin/bash
 # Usage: tools/seeded_eval_all.sh [seed] [parallel]   -- runs tools/seeded_eval.sh for every stored change
+# (parallel > 1 divides the cores: detection within the quick budget is then less likely)
 cd "$(dirname "$0")/.." || exit 2
-SEED="${1:-1}"; PAR="${2:-3}"
-ls seeded | grep -v "\.md$" | xargs -P "$PAR" -I{} sh -c "VERIF_WORKERS=${VERIF_WORKERS:-5} tools/seeded_eval.sh {} $SEED 2>&1" | grep -v "^KNOWN\|^HARNESS\|^note:" | sort
+SEED="${1:-1}"; PAR="${2:-1}"
+ls seeded | grep -v "\.md$\|\.txt$" | xargs -P "$PAR" -I{} sh -c "tools/seeded_eval.sh {} $SEED 2>&1" | grep -v "^KNOWN\|^HARNESS\|^note:" | sort
